@@ -1,10 +1,29 @@
 from common import ENUMX_ASSUME, splice_qbft, splice_k1memo
 
+
+def splice_bsync(src, out):
+    """`"sync"` -> `sync ".../zzverif/bsync"` import rewrite of one charon file (generated from the current content, after a
+    patch under test has been applied): the file's locks become visible to the synctest bubble, so a member whose
+    goroutine waits for a lock for ever shows up as a member that never decides instead of freezing virtual time."""
+    import os
+    import re
+    s = open(src).read()
+    pat = re.compile(r'^(\s*)"sync"\s*$', re.M)
+    if len(pat.findall(s)) != 1:
+        return None
+    s = pat.sub(r'\1sync "github.com/obolnetwork/charon/zzverif/bsync"', s, count=1)
+    os.makedirs(os.path.dirname(out), exist_ok=True)
+    open(out, "w").write(s)
+    return out
+
+
 CHECK = dict(
     pkgs=["core/consensus/qbft", "core/qbft"],
-    files={"core/consensus/qbft": ["zz_verif_c04_test.go"], "core/qbft": ["zz_verif_c02_test.go", "zz_verif_hook.go"]},
-    libs=["enumx"],
-    splice={"core/qbft/qbft.go": splice_qbft, "app/k1util/k1util.go": splice_k1memo},
+    files={"core/consensus/qbft": ["zz_verif_c04_test.go", "zz_verif_c04comp_test.go", "zz_verif_c05_test.go", "zz_verif_c05x_test.go"], "core/qbft": ["zz_verif_c02_test.go", "zz_verif_hook.go"]},
+    libs=["enumx", "bsync"],
+    splice={"core/qbft/qbft.go": splice_qbft, "app/k1util/k1util.go": splice_k1memo,
+            "core/consensus/timer/roundtimer.go": splice_bsync, "core/consensus/qbft/qbft.go": splice_bsync,
+            "core/consensus/qbft/transport.go": splice_bsync, "core/consensus/qbft/sniffer.go": splice_bsync},
     extra_files={"app/k1util": ["zz_verif_k1memo.go"]},
     run={"core/consensus/qbft": "TestVerifC04", "core/qbft": "TestVerifC04u"},
     level="fault_enumeration",
@@ -13,7 +32,13 @@ CHECK = dict(
               "latency classes, every leader rotation, all three round timers), each executed on the real qbft.Run with the real "
               "newDefinition/leader/transport/Msg/round timers in virtual time, every message delivered through the recipient's real receive handler "
               "(Consensus.handle: signature and justification verification, count limits, conversion, receive buffer); exact oracles on decision "
-              "round and instant",
+              "round and instant. The same kind of scripts is executed (Part 0 of TestVerifC04, zz_verif_c04comp_test.go) on four real Consensus "
+              "COMPONENTS built by NewConsensus (Participate/Propose -> runInstance, the round timer picked by the production constructor "
+              "timer.GetRoundTimerFunc(genesis, slotDuration), real gater, deadliner, transport, Consensus.Broadcast/p2p.Sender, stream handler and wire "
+              "encoding; stub libp2p host and beacon client of the C05 harness; a harness network that delivers every frame after the sender's "
+              "latency class), and on the qbft.Run layer with the timer obtained from the same production constructor under every feature "
+              "combination that selects a different branch, with start offsets beyond one round and with the cluster starting at, within the first "
+              "round after, and after the first slot-aligned deadline after the duty's start",
     claim="n=4..6 (quick; n=6 and the proposer duty reduced) / n=4..7 (thorough): every subset of at most f faulty members, every fault kind for the first of them (crash during its "
           "k-th broadcast k<=4 reaching nobody / half / all but one of the others, silent from the start, start late by 1/4 or 3/4 of the first round, "
           "proposal late by the same), each also with every single slow (3*delta) running sender; all n leader rotations; increasing, eager "
@@ -25,14 +50,43 @@ CHECK = dict(
           "clauses (no honest message refused or unjustified, agreement, no instance error) are judged in every script, the termination clause in those "
           "with at most f faulty (crashed, silent, late) members. The last clause (no message of an honest member is rejected as "
           "unjustified) is additionally checked over ALL delivery orders by the explicit-state search of C02 restricted to its scenarios without "
-          "Byzantine members (second test binary, core/qbft)",
+          "Byzantine members (second test binary, core/qbft). "
+          "Production-timer family (qbft.Run layer, before the main family; n=4..6 quick / 4..7 thorough, every leader rotation): the timer obtained (a) from the three "
+          "types' own constructors (relative clock; attester, eager double-linear also proposer; thorough: all x proposer) and (b) from "
+          "timer.GetRoundTimerFunc(genesis, 12 s)(duty) under the features {eager_double_linear, linear} = {on,off}: slot-aligned eager double-linear for attester, "
+          "proposer and aggregator duties (the three duty-start offsets within a slot); {on,off} with a zero genesis (relative eager double-linear); {on,on}: linear "
+          "for the proposer, slot-aligned eager double-linear for the attester; {off,on} and {off,off}: increasing. Per unit and - for slot-aligned timers - per "
+          "cluster start in {duty start, +500 ms, +1500 ms}: every member starting 1.25 or 2.5 first-round timeouts after the others (n=4: also with every single "
+          "slow sender); through the production constructor in addition no fault, every member starting 1/4 or 3/4 of a round late, every crash kind of every member "
+          "(n>4 quick: of the first two members), f>=2: a half-way crash plus a second member joining 1.25 rounds late (quick: 15192 scripts, 14064 through the "
+          "production constructor, 10548 slot-aligned). A member that has entered 64 rounds without deciding is stopped and judged as never decided. "
+          "Component part (n=4, attester duty of slot 1001/1002 - quick - or 1001..1004 = all four leader rotations - thorough; production features: "
+          "eager_double_linear, proposal_timeout, consensus_participate; cluster start in {duty start, +500 ms, +1500 ms}): no fault, every single slow sender, map "
+          "rotations 1 and 2 (thorough: reverse select order); every member calling Participate+Propose 250 / 750 / 1250 / 2500 ms after the others, the two offsets "
+          "beyond one round also with a slow sender (quick: the joiner or its successor; thorough: every member) and under the reverse select order; every member "
+          "proposing 250 / 750 / 1250 ms after its Participate; every member silent, or stopping during its k-th broadcast (k=1..4, a broadcast = a distinct message "
+          "handed to the network) having reached none / one / two of the three others: 111 scripts per (slot, cluster start), 666 quick / 1536 thorough, each run until "
+          "everybody who can has decided (+5 s) or else until the duty's deadline (slot start + one epoch + 1 s). Oracle of the component part: every running "
+          "component hands a decision to its subscribers, having sent nothing for a round beyond n after the furthest round at the last fault and no later than "
+          "the extended slot-aligned deadline of that round; running components agree; no component logs 'Unjustified consensus message' (the LogUnjust callback "
+          "of newDefinition); receive-handler refusals are counted, not judged, in this part. Both parts reproduce the open known finding "
+          "C04-late-joiner-never-decides-with-slot-aligned-timer (a never-deciding member is classified: 'joined after the others decided and left' only if the "
+          "slot-aligned deadline of the round in which the others decided had passed when it started - the known finding - and otherwise reported under another signature)",
     trusted="testing/synctest virtual time; the recipient's Consensus object is assembled by the harness with the cluster's public keys, an allow-all "
             "duty gater and a never-expiring deadliner (gater and deadliner belong to C05/C16); delivery instants never coincide (distinct microsecond "
             "offsets); the two calls of app/k1util into the secp256k1 library (RecoverCompact, SignCompact - pure, deterministic) are memoised on their "
-            "complete argument bytes by an overlay so that repeated verification of byte-identical messages does not re-run the curve arithmetic",
-    rule="scripts enumerated as nested products; non-trivial class = (n, timer, number of crashes, number of members that decided, their rounds)",
+            "complete argument bytes by an overlay so that repeated verification of byte-identical messages does not re-run the curve arithmetic; "
+            "the `sync` import of core/consensus/timer/roundtimer.go and core/consensus/qbft/{qbft,transport,sniffer}.go is rewritten to zzverif/bsync (FIFO locks "
+            "whose waiting is a channel receive, otherwise the semantics of sync.Mutex) so that a goroutine waiting for a lock is durably blocked for "
+            "testing/synctest: a member that waits for a lock for ever is seen as a member that never decides instead of freezing the execution; component part: "
+            "the stub libp2p host, beacon client and key material of the C05 harness, and the console log as the observation point of LogUnjust",
+    rule="scripts enumerated as nested products; non-trivial class = (n, timer, number of crashes, number of members that decided, their rounds); component "
+         "part: (cluster start, number of crashes, number of components that decided, whether a member that joined beyond one round decided)",
     assumptions=ENUMX_ASSUME + ["latency classes delta=40ms and 3*delta=120ms < 1/3 of the shortest round timeout (400ms)",
-                                "Byzantine members and latencies >= 1/3 timeout are outside the property"],
+                                "Byzantine members and latencies >= 1/3 timeout are outside the property",
+                                "start offsets beyond one round and cluster starts after the duty's start go beyond the statement's quantifier ('start offsets smaller "
+                                "than a round'); they are what a node restarted or a slow beacon node produces, and what the open known finding needs",
+                                "slot duration 12 s; a member is stopped after 64 rounds (qbft.Run layer) / at the duty's deadline (component layer)"],
     budget_s={"quick": 100, "thorough": 1500},
     mem_kb=14 * 1024 * 1024,
 )
